@@ -42,3 +42,33 @@ package render
 //@   requires x == min(a, b, c) && u == min(a, b, c)
 //@   ensures [rotations-canonicalise-identically] x == u && y == v && z == w
 //@ end
+
+//-----------------------------------------------------------------------------
+// C05 / C06 / C08: the vertex placed on a crossing lattice edge
+
+//@ spec between(x real, a real, b real) = min(a, b) <= x && x <= max(a, b)
+
+//@ func mcInterpolate
+//@   property C05 C06
+//@   requires (v1 < x && x <= v2) || (v2 < x && x <= v1)
+//@   ensures [on-the-edge-x] between(r.X, p1.X, p2.X)
+//@   ensures [on-the-edge-y] between(r.Y, p1.Y, p2.Y)
+//@   ensures [on-the-edge-z] between(r.Z, p1.Z, p2.Z)
+//@   ensures [collinear-with-edge] r.Sub(p1).Cross(p2.Sub(p1)) == v3.Vec{0, 0, 0}
+//@   ensures [linear-zero-crossing] abs(x - v1) >= epsilon && abs(x - v2) >= epsilon ==> r.Sub(p1).MulScalar(v2 - v1) == p2.Sub(p1).MulScalar(x - v1)
+//@   ensures [snaps-to-corner-1] abs(x - v1) < epsilon && abs(x - v2) >= epsilon ==> r == p1
+//@   ensures [snaps-to-corner-2] abs(x - v2) < epsilon && abs(x - v1) >= epsilon ==> r == p2
+//@   ensures [same-vertex-from-either-cell] r == mcInterpolate(p2, p1, v2, v1, x)
+//@ end
+
+//@ func msInterpolate
+//@   property C08
+//@   requires (k1 < x && x <= k2) || (k2 < x && x <= k1)
+//@   ensures [on-the-edge-x] between(r.X, p1.X, p2.X)
+//@   ensures [on-the-edge-y] between(r.Y, p1.Y, p2.Y)
+//@   ensures [collinear-with-edge] r.Sub(p1).Cross(p2.Sub(p1)) == 0
+//@   ensures [linear-zero-crossing] abs(x - k1) >= epsilon && abs(x - k2) >= epsilon ==> r.Sub(p1).MulScalar(k2 - k1) == p2.Sub(p1).MulScalar(x - k1)
+//@   ensures [snaps-to-corner-1] abs(x - k1) < epsilon && abs(x - k2) >= epsilon ==> r == p1
+//@   ensures [snaps-to-corner-2] abs(x - k2) < epsilon && abs(x - k1) >= epsilon ==> r == p2
+//@   ensures [same-vertex-from-either-cell] r == msInterpolate(p2, p1, k2, k1, x)
+//@ end
